@@ -745,4 +745,86 @@ theorem readAll_selectors (b total : Nat) (hb : 0 < b) (fuel : Nat) (s : List Se
         rcases hx with rfl | hx
         · exact ⟨List.length_pos_iff.mpr (by simpa using he), h5⟩
         · exact hb3 x hx
+
+/-- the invariants `RowSelection` documents for its selector backing: no zero-length
+selector, consecutive selectors alternate between skip and select -/
+def Normal : List Sel → Prop
+  | [] => True
+  | [a] => a.1 ≠ 0
+  | a :: b :: r => a.1 ≠ 0 ∧ a.2 ≠ b.2 ∧ Normal (b :: r)
+
+theorem normGo_normal (last : Sel) (r : List Sel) (h : last.1 ≠ 0) :
+    Normal (normGo last r) ∧ ∃ n t, normGo last r = (n, last.2) :: t ∧ n ≠ 0 := by
+  induction r generalizing last with
+  | nil => exact ⟨h, last.1, [], rfl, h⟩
+  | cons s r ih =>
+    unfold normGo
+    split
+    · exact ih last h
+    · split
+      · rename_i h0 hk
+        have := ih (last.1 + s.1, last.2) (by simp; omega)
+        simpa using this
+      · rename_i h0 hk
+        obtain ⟨hn, n, t, he, hn0⟩ := ih s h0
+        refine ⟨?_, last.1, _, rfl, h⟩
+        rw [he]
+        refine ⟨h, hk, ?_⟩
+        rw [← he]; exact hn
+
+theorem fromIter_normal (s : List Sel) : Normal (fromIter s) := by
+  induction s with
+  | nil => trivial
+  | cons a r ih =>
+    unfold fromIter
+    split
+    · exact ih
+    · rename_i h; exact (normGo_normal a r h).1
+
+theorem mem_trueIdx (b p : Nat) (m : List Bool) :
+    p ∈ trueIdx b m ↔ b ≤ p ∧ m[p - b]? = some true := by
+  induction m generalizing b with
+  | nil => simp [trueIdx]
+  | cons a m ih =>
+    cases a
+    · simp only [trueIdx, ih]
+      constructor
+      · rintro ⟨h1, h2⟩
+        refine ⟨by omega, ?_⟩
+        have : p - b = (p - (b + 1)) + 1 := by omega
+        rw [this]; simpa using h2
+      · rintro ⟨h1, h2⟩
+        by_cases hp : p = b
+        · subst hp; simp at h2
+        · have : p - b = (p - (b + 1)) + 1 := by omega
+          rw [this] at h2
+          exact ⟨by omega, by simpa using h2⟩
+    · simp only [trueIdx, List.mem_cons, ih]
+      constructor
+      · rintro (h | ⟨h1, h2⟩)
+        · subst h; simp
+        · refine ⟨by omega, ?_⟩
+          have : p - b = (p - (b + 1)) + 1 := by omega
+          rw [this]; simpa using h2
+      · rintro ⟨h1, h2⟩
+        by_cases hp : p = b
+        · exact Or.inl hp
+        · right
+          have : p - b = (p - (b + 1)) + 1 := by omega
+          rw [this] at h2
+          exact ⟨by omega, by simpa using h2⟩
+
+theorem zipTail_getElem? (f : Bool → Bool → Bool) (a b : List Bool) (i : Nat)
+    (ha : i < a.length) (hb : i < b.length) :
+    (zipTail f a b)[i]? = some (f a[i] b[i]) := by
+  induction a generalizing b i with
+  | nil => simp at ha
+  | cons x a ih =>
+    cases b with
+    | nil => simp at hb
+    | cons y b =>
+      cases i with
+      | zero => simp
+      | succ i => simpa using ih b i (by simpa using ha) (by simpa using hb)
+
 end ArrowModel.C06
